@@ -1,5 +1,6 @@
 import Andes.Model.Hex
 import Andes.Model.TdsDriver
+import Andes.Model.AddressDriver
 /-! One case per input line, one canonical output line; the first word selects the model. -/
 
 def handle (line : String) : String :=
@@ -7,6 +8,8 @@ def handle (line : String) : String :=
   | "tds" :: args => Andes.Tds.handleTds args
   | "swt" :: args => Andes.Tds.handleSwt args
   | "tog" :: args => Andes.Events.handleTog args
+  | "addr" :: args => Andes.Address.handleAddr args
+  | "req" :: args => Andes.Address.handleReq args
   | _ => "bad-op"
 
 partial def loop (h : IO.FS.Stream) : IO Unit := do
